@@ -443,6 +443,14 @@ class G:
                     pos += ksz
                 else:
                     dyn_params.append(tk)
+                if self.opts.get("table_key_only", True) and self.chance(25):
+                    # a TABLE-KEY without TABLE-STRUCT (e.g. the identifier of a "read data by identifier" request)
+                    self.features.add("table-key-only")
+                    if tk["row"] is None:
+                        values[tk["name"]] = tval[0]
+                    elif self.chance(40):
+                        values[tk["name"]] = tk["row"]
+                    continue
                 dynamic = True
                 dyn_params.append(ts)
                 values[ts["name"]] = tval
@@ -541,6 +549,18 @@ class G:
                 order = list(self.d(st.permutations(order)))
                 self.features.add("out-of-order")
             order.append(lastp)
+            if top and not dyn_params and len(order) > 1 and self.opts.get("last_listed_not_last") and self.chance(35) \
+                    and not any(q["pk"] == "lenkey" for q in order):
+                # nothing follows a top-level list, so the cursor after it is immaterial and the positionally
+                # last parameter need not be listed last (the PDU still ends at the largest end position)
+                # (the parameter listed last instead must not care about being "at the end of the PDU")
+                plain = [q for q in order[:-1] if q["pk"] in ("const", "reserved", "matchreq") or
+                         (q["pk"] == "value" and q["dop"]["k"] == "simple" and q["dop"]["dct"]["t"] == "std")]
+                if plain:
+                    q = self.pick(plain)
+                    order.remove(q)
+                    order.append(q)
+                    self.features.add("last-listed-not-last")
         cursor = 0
         for q in order:
             if q["pos"] == cursor and self.chance(45):
